@@ -104,8 +104,9 @@ class Rig:
         c.ident = "0a" * 6
 
         def handler(conn, msg):
+            # a delivery does not count as progress by itself: a real one shrinks the buffer, which the header-parse
+            # monitor sees; one that leaves the buffer as it was is the spin
             self.delivered.append(msg)
-            self.reset_progress()
 
         c.message_handler = handler
         self.conn = c
